@@ -18,6 +18,9 @@ impl Comp for f32 { fn comps(&self) -> Vec<f64> { vec![*self as f64] } fn dcomps
 impl Comp for Vec2 { fn comps(&self) -> Vec<f64> { self.0.iter().map(|x| *x as f64).collect() } fn dcomps(d: &Vec2) -> Vec<f64> { d.comps() } fn make(c: &[f32]) -> Vec2 { vec2(c[0], c[1]) } const N: usize = 2; const NAME: &'static str = "Vec2"; }
 impl Comp for Vec3 { fn comps(&self) -> Vec<f64> { self.0.iter().map(|x| *x as f64).collect() } fn dcomps(d: &Vec3) -> Vec<f64> { d.comps() } fn make(c: &[f32]) -> Vec3 { vec3(c[0], c[1], c[2]) } const N: usize = 3; const NAME: &'static str = "Vec3"; }
 impl Comp for Point2 { fn comps(&self) -> Vec<f64> { self.0.iter().map(|x| *x as f64).collect() } fn dcomps(d: &Vec2) -> Vec<f64> { d.comps() } fn make(c: &[f32]) -> Point2 { pt2(c[0], c[1]) } const N: usize = 2; const NAME: &'static str = "Point2"; }
+// angles as control values (in units of a quarter turn: the value lattice then spans several revolutions, differences exceed
+// half a turn and partial sums are negative - an angle is a magnitude here, not a direction)
+impl Comp for Angle { fn comps(&self) -> Vec<f64> { vec![self.to_rads() as f64] } fn dcomps(d: &Angle) -> Vec<f64> { vec![d.to_rads() as f64] } fn make(c: &[f32]) -> Angle { re::math::rads(c[0] * std::f32::consts::FRAC_PI_2) } const N: usize = 1; const NAME: &'static str = "Angle"; }
 impl Comp for Color3f { fn comps(&self) -> Vec<f64> { self.0.iter().map(|x| *x as f64).collect() } fn dcomps(d: &Color3f) -> Vec<f64> { d.comps() } fn make(c: &[f32]) -> Color3f { rgb(c[0], c[1], c[2]) } const N: usize = 3; const NAME: &'static str = "Color3f"; }
 
 const VALS: [f32; 7] = [0.0, 1.0, -1.0, 0.5, 3.0, -1000.0, 1e-3];
@@ -229,6 +232,7 @@ fn run_spline(cfg: &Cfg) -> ! {
     rep.merge(par_range(cfg, 7u64.pow(4), |i, r| {
         let c: [Vec<f32>; 4] = [vec![VALS[(i % 7) as usize]], vec![VALS[(i / 7 % 7) as usize]], vec![VALS[(i / 49 % 7) as usize]], vec![VALS[(i / 343) as usize]]];
         check_cubic::<f32>(&c, r);
+        if i % 3 == 0 { check_cubic::<Angle>(&c, r); }
     }));
     // thorough: all 4-tuples over an 11-value lattice with non-dyadic members
     if !quick {
@@ -254,6 +258,7 @@ fn run_spline(cfg: &Cfg) -> ! {
         check_spline::<f32>(n, seed, r);
         check_spline::<Vec2>(n, seed, r);
         check_spline::<Point2>(n, seed, r);
+        if seed < 4 { check_spline::<Angle>(n, seed, r); }
         if seed < 3 { check_spline::<Vec3>(n, seed, r); check_spline::<Color3f>(n, seed, r); }
     }));
     // thorough: every segment count 9..=64 (three polygons each)
@@ -325,7 +330,11 @@ fn check_angle_impl(deg: f64, r: &mut Report) {
             let lerp = a.lerp(&b, 0.25).to_rads() as f64;
             let want = m as f64 + (bm as f64 - m as f64) * 0.25;
             let ok = Affine::add(&a, &b).to_rads() == m + bm && Affine::sub(&a, &b).to_rads() == m - bm && Affine::sub(&b, &a).to_rads() == bm - m
-                && Linear::mul(&a, 2.5).to_rads() == m * 2.5 && Linear::neg(&a).to_rads() == -m && (lerp - want).abs() <= 1e-5 * (1.0 + m.abs() as f64);
+                && Linear::mul(&a, 2.5).to_rads() == m * 2.5 && Linear::neg(&a).to_rads() == -m && (lerp - want).abs() <= 1e-5 * (1.0 + m.abs() as f64)
+                // ... and the perspective division of an angle used as a varying is the division of its magnitude
+                && { use re::math::vary::ZDiv; [2.0f32, 0.1, -4.0].iter().all(|&z| a.z_div(z).to_rads().to_bits() == (m / z).to_bits()) }
+                // ... as is stepping it as a varying (vary / step / dv_dt)
+                && { use re::math::Vary; let st = Vary::step(&a, &b).to_rads(); let it: Vec<f32> = a.vary(b, Some(3)).map(|x| x.to_rads()).collect(); st == m + bm && it.len() == 3 && it[0] == m && (it[2] as f64 - (m as f64 + 2.0 * bm as f64)).abs() <= 1e-5 * (1.0 + m.abs() as f64) && (a.dv_dt(&b, 0.5).to_rads() as f64 - (bm as f64 - m as f64) * 0.5).abs() <= 1e-5 * (1.0 + m.abs() as f64) };
             if !ok { r.violation(key("arith-traits"), format!("Affine/Linear/Lerp on degs({d}) and degs(33) do not act on the magnitude: add {} sub {} lerp(0.25) {lerp} (expected {want})", Affine::add(&a, &b).to_rads(), Affine::sub(&a, &b).to_rads()), case()); }
         }
         // wrap
